@@ -12,7 +12,6 @@ Local Open Scope num_scope.
 Section DP.
 Context {T : Type} {N : Num T}.
 Variable vt : variant.
-Hypothesis Hrs : v_real_shortcut vt = real_shortcut_of_table.
 Notation oexpr := (oexpr T).
 Notation vec := (list T).
 
@@ -72,9 +71,9 @@ Proof.
   - unfold mul_functional, t_Functional_mul. cbn [run ceval]. rewrite (sp_eqb_SF_r _ (Hf F)).
     destruct (c =? nzero); [reflexivity|]. destruct (olin vt a); reflexivity.
   - assert (Op : mul_operator vt a (PScal c rl) =
-                 (if olin vt a && (rl || negb (v_real_shortcut vt)) then rmul_c a c else mkRScal false a c)).
-    { rewrite Hrs. unfold mul_operator, t_Operator_mul, real_shortcut_of_table.
-      cbn [run ceval andb orb negb tree_mentions_real cond_mentions_real].
+                 (if olin vt a && rl then rmul_c a c else mkRScal false a c)).
+    { unfold mul_operator, t_Operator_mul.
+      cbn [run ceval andb].
       rewrite (rmul_c_tab a c rl Hf).
       destruct (olin vt a), rl; cbn [andb orb negb do_act cb_rmul]; reflexivity. }
     destruct a; try (symmetry; exact Op).
